@@ -38,10 +38,8 @@ def rand_id(rng, j, fresh_bias=0.5):
         return rng.choice(j["edges"])
     if r < 0.45:
         return rng.choice([0, 1, 2, 3])
-    if r < 0.72:
+    if r < 0.75:
         return rng.randrange(0, 12)
-    if r < 0.76:
-        return rng.choice([90, 90, 91])  # far away ints (for some id kinds: the end of a number range)
     return rng.choice([100, 101, 102, 103])
 
 
